@@ -470,6 +470,7 @@ func worldC18(w *World) {
 		plans[i].ago = []time.Duration{time.Second, 2 * time.Minute, 4*time.Minute + 58*time.Second, 5*time.Minute + 2*time.Second, 20 * time.Minute}[t.Choice(5, "ago")]
 	}
 	lookupFault := t.Rare(1, 6, "lookupfault")
+	cronFirst := t.Rare(1, 3, "cronfirst")
 	nReq := t.Range(1, 5, "requests")
 	type ureq struct {
 		user, path string
@@ -600,6 +601,14 @@ func worldC18(w *World) {
 					q.res = gaeCall(w, plat, "default", simplatform.Identity{UserEmail: q.user}, "GET", fmt.Sprintf("%s?tok=%s", q.path, q.tok), nil, nil)
 				}()
 			}
+		}
+		if cronFirst {
+			// the platform's periodic clean-up call must not change the routing
+			if r := gaeCall(w, plat, "api", simplatform.Identity{}, "GET", "/cron/delete", http.Header{"X-Appengine-Cron": {"true"}}, nil); r.Status != 200 && !lookupFault {
+				w.Violation("setup", "the clean-up call failed: %d %s", r.Status, r.Body)
+			}
+			w.Probe("cleanup_cron_before_lookups")
+			reqStart = w.K.Now()
 		}
 		snapshot(reqStart, lastPoll)
 		issue(0)
